@@ -168,6 +168,10 @@ func main() {
 	switch os.Args[1] {
 	case "explore":
 		os.Exit(cmdExplore(os.Args[2:]))
+	case "run":
+		os.Exit(cmdRun(os.Args[2:]))
+	case "replay":
+		os.Exit(cmdReplay(os.Args[2:]))
 	default:
 		fmt.Fprintln(os.Stderr, "unknown command")
 		os.Exit(2)
